@@ -161,6 +161,7 @@ func c06(c *core.Check) {
 	c06scopes(c)
 	c06redirect(c)
 	c06quoteEscape(c)
+	c06containerElems(c)
 	pkgIdentityByPath(c)
 	st := tmplEngine(c)
 	if st == nil {
